@@ -1190,13 +1190,22 @@ class Tensor:
         for var in tensor_vars:
             var._ops.add(ref_f)
 
-        tensor_out = cls(
-            op_out,
-            constant=constant,
-            copy=False,
-            _creator=f,
-            _base=base,
-        )
+        try:
+            tensor_out = cls(
+                op_out,
+                constant=constant,
+                copy=False,
+                _creator=f,
+                _base=base,
+            )
+        except Exception as e:
+            # e.g. `constant=False` for an integer-valued result, or a non-real dtype:
+            # the op is not recorded, so its inputs must be released again
+            for var in tensor_vars:
+                var._ops.discard(ref_f)
+            if _mem.MEM_GUARD:
+                _mem.release_writeability_lock_on_op(_uniques_bases_then_arrs)
+            raise e
 
         if parent_var is not None:
             parent_var._view_children.append(tensor_out)
